@@ -190,7 +190,7 @@ func (m *Module) Evaluation(
 	}
 
 	// set defined class
-	base.SetDefinedClass(nextFrame, class)
+	base.SetSourceDefinedClass(nextFrame, class)
 
 	return nil
 }
